@@ -429,6 +429,125 @@ BOUNDARY_1E9 = [   # outside the property's quantifier (total count below 10^9):
 ]
 
 
+# ------------------------------------------------------------------ stream-level oracle (tw family)
+def stream_oracle(jpg, wb, hb, want):
+    """Independent of the model and of the library's decoder: parse the markers, keep for every scan the
+    DHT in force for each slot it names (the last DHT for that slot before the SOS), decode the scan with it
+    (sequential, or progressive without successive approximation; 1x1 sampling) and compare with the
+    coefficients that were written.  want: {(comp, block, zigzag): value}.  Returns None or a message."""
+    pos, n = 2, len(jpg)
+    tables, comps, prog, got, scan_no = {}, [], False, {}, 0
+    nb = wb * hb
+    while pos + 4 <= n:
+        if jpg[pos] != 0xFF:
+            return "marker expected at offset %d" % pos
+        m = jpg[pos + 1]
+        if m == 0xD9:
+            break
+        L = (jpg[pos + 2] << 8) | jpg[pos + 3]
+        seg = jpg[pos + 4:pos + 2 + L]
+        pos += 2 + L
+        if m in (0xC0, 0xC1, 0xC2):
+            prog = m == 0xC2
+            comps = [seg[6 + 3 * i] for i in range(seg[5])]
+        elif m == 0xC4:
+            q = 0
+            while q < len(seg):
+                tc, th = seg[q] >> 4, seg[q] & 15
+                bits = list(seg[q + 1:q + 17])
+                nv = sum(bits)
+                vals = list(seg[q + 17:q + 17 + nv])
+                q += 17 + nv
+                code, k, tab = 0, 0, {}
+                for l in range(1, 17):
+                    for _ in range(bits[l - 1]):
+                        tab[(l, code)] = vals[k]
+                        code += 1
+                        k += 1
+                    code <<= 1
+                tables[(tc, th)] = tab
+        elif m == 0xDA:
+            ns = seg[0]
+            sc = [(comps.index(seg[1 + 2 * i]), seg[2 + 2 * i] >> 4, seg[2 + 2 * i] & 15) for i in range(ns)]
+            ss, se, ah, al = seg[1 + 2 * ns], seg[2 + 2 * ns], seg[3 + 2 * ns] >> 4, seg[3 + 2 * ns] & 15
+            if ah or al:
+                return None        # successive approximation is not generated by this family
+            end = pos
+            while not (jpg[end] == 0xFF and jpg[end + 1] != 0):
+                end += 1
+            data = bytes(jpg[pos:end]).replace(b"\xff\x00", b"\xff")
+            pos = end
+            bitpos = [0]
+
+            def getbit():
+                i = bitpos[0]
+                if i >= 8 * len(data):
+                    raise ValueError("scan %d: ran out of data" % scan_no)
+                bitpos[0] = i + 1
+                return (data[i >> 3] >> (7 - (i & 7))) & 1
+
+            def getbits(k):
+                v = 0
+                for _ in range(k):
+                    v = (v << 1) | getbit()
+                return v
+
+            def huff(tc, th):
+                tab = tables.get((tc, th))
+                if tab is None:
+                    raise ValueError("scan %d uses %s slot %d for which no DHT is in force" % (scan_no, "AC" if tc else "DC", th))
+                code = 0
+                for l in range(1, 17):
+                    code = (code << 1) | getbit()
+                    if (l, code) in tab:
+                        return tab[(l, code)]
+                raise ValueError("scan %d: bit string is not a code of the DHT in force for %s slot %d" % (scan_no, "AC" if tc else "DC", th))
+
+            def extend(v, t):
+                return v if t == 0 or v >= (1 << (t - 1)) else v - (1 << t) + 1
+
+            try:
+                pred = {c: 0 for c, _, _ in sc}
+                eobrun = 0
+                for b in range(nb):
+                    for c, td, ta in sc:
+                        k = ss
+                        if ss == 0:
+                            t = huff(0, td)
+                            pred[c] += extend(getbits(t), t)
+                            got[(c, b, 0)] = pred[c]
+                            k = 1
+                        if se == 0:
+                            continue
+                        if eobrun > 0:
+                            eobrun -= 1
+                            continue
+                        while k <= se:
+                            rs = huff(1, ta)
+                            r, z = rs >> 4, rs & 15
+                            if z == 0:
+                                if r == 15:
+                                    k += 16
+                                    continue
+                                if not prog and r != 0:
+                                    raise ValueError("scan %d: symbol 0x%02x in a sequential scan" % (scan_no, rs))
+                                eobrun = (1 << r) - 1 + (getbits(r) if r else 0)
+                                break
+                            k += r
+                            if k > se:
+                                raise ValueError("scan %d: run past the end of the band" % scan_no)
+                            got[(c, b, k)] = extend(getbits(z), z)
+                            k += 1
+            except ValueError as e:
+                return str(e)
+            scan_no += 1
+    got = {k: v for k, v in got.items() if v}
+    if got != want:
+        diff = sorted(set(got.items()) ^ set(want.items()))[:4]
+        return "decoding every scan with the DHT in force for it does not reproduce the written coefficients: " + str(diff)
+    return None
+
+
 def table_valid_for(freq, line):
     """property-level oracle on the implementation's output line"""
     if not line.startswith("ok "):
@@ -484,7 +603,7 @@ def random_valid_bits(rng, nsym):
 
 def run(ctx):
     rng = ctx.rng
-    ctx.regen(["Nbits", "StdHuff", "HuffGen", "HuffSym"])
+    ctx.regen(["Nbits", "StdHuff", "HuffGen", "HuffSym", "HuffSel"])
     ctx.prove()
     drv = ctx.model_driver()
     flavours = ["simd", "plain"] if not ctx.thorough() else ["simd", "plain", "asan"]
@@ -515,6 +634,8 @@ def run(ctx):
             meta = [int(x) for x in l.split()[1:257]] if l.startswith("gen ") else None
             if l.startswith("nbits "):
                 kind, meta = "nbits", tuple(int(x) for x in l.split()[1:3])
+            if l.split()[0] in ("ms", "tn", "tw"):
+                kind = l.split()[0]
             cases.append((l, kind, meta))
         return run_cases(ctx, cases, exes, drv, flavours)
     # corpus first
@@ -595,6 +716,11 @@ def run(ctx):
     # decoder tables across a DHT that redefines a slot between scans (real codec, oracle only)
     for i in range(ctx.n(40, 600)):
         cases.append(("ms %d %d %d" % (rng.range(1, 1 << 30), rng.range(8, 40), rng.range(8, 40)), "ms", None))
+    # table-number selection and twin scans through the real codec (oracle only)
+    for i in range(ctx.n(120, 3000)):
+        cases.append(("tn %d %d %d" % (rng.range(1, 1 << 30), i % 3, (i // 3) % 2), "tn", None))
+    for i in range(ctx.n(40, 800)):
+        cases.append(("tw %d %d" % (rng.range(1, 1 << 30), i % 2), "tw", None))
     # nbits: exhaustive, in 64 slices
     for k in range(64):
         cases.append(("nbits %d %d" % (k * 1024, k * 1024 + 1023), "nbits", (k * 1024, k * 1024 + 1023)))
@@ -657,6 +783,23 @@ def run_cases(ctx, cases, exes, drv, flavours):
                 ctx.violation("decoder tables do not follow a DHT that redefines a slot between scans: multi-scan and single-scan encodings of one image read back different coefficients (%s)" % impl,
                               {"case": line, "impl": impl}, signature="ms-slot-redefinition")
             nontriv = ("ms", line)
+        elif kind in ("tn", "tw"):
+            if " same warn=0" not in impl:
+                what = ("a component's DC and AC table numbers select the tables (dc_tbl_no / ac_tbl_no drawn independently from 0..3)"
+                        if kind == "tn" else "two scans on one table slot whose histograms differ in one rare symbol")
+                ctx.violation("real codec round trip through Huffman tables is not exact -- %s: %s" % (what, impl[:200]),
+                              {"case": line, "impl": impl[:400]}, signature=kind + "-roundtrip")
+            if kind == "tw" and " ; jpg " in impl:
+                parts = impl.split(" ; ")
+                wbhb = parts[1].split()
+                want = {}
+                for w in parts[3].split()[1:]:
+                    c, b, k, v = (int(x) for x in w.split(":"))
+                    want[(c, b, k)] = v
+                bad = stream_oracle(bytes.fromhex(parts[2].split()[1]), int(wbhb[1]), int(wbhb[3]), want)
+                if bad:
+                    ctx.violation("emitted stream: " + bad, {"case": line, "impl": impl[:300]}, signature="tw-stream-dht")
+            nontriv = (kind, impl.split(" ; ")[0][:120])
         elif kind == "nbits":
             lo, hi = meta
             exp = "nb " + " ".join(str(x.bit_length()) for x in range(lo, hi + 1))
@@ -673,7 +816,7 @@ def run_cases(ctx, cases, exes, drv, flavours):
                 ctx.violation("builds disagree (%s vs %s)" % (flavours[0], fl), {"case": line, flavours[0]: impl, fl: outs[fl][i]},
                               signature="build-disagree:" + kind)
         # ---- model correspondence ----
-        if mlines is not None and kind != "ms" and mlines[i].rstrip() != impl.rstrip():
+        if mlines is not None and kind not in ("ms", "tn", "tw") and mlines[i].rstrip() != impl.rstrip():
             disagree += 1
             if disagree <= 3:
                 ctx.log("model/impl disagree on", kind, "\n  case :", line[:160], "\n  model:", mlines[i][:160], "\n  impl :", impl[:160])
